@@ -99,8 +99,15 @@ def run(chk, replay=None):
             ("c-nopie-copyrel", ["-dynamic-linker", "/lib64/ld-linux-x86-64.so.2", f"{lib}/crt1.o", f"{lib}/crti.o", f"{gccdir}/crtbegin.o", "np.o", "libdv.so",
                                  f"{lib}/libc.so.6", f"{gccdir}/libgcc.a", f"{gccdir}/crtend.o", f"{lib}/crtn.o", "--build-id=fast"]),
         ]
+        # input sections of a megabyte and more (their bytes are copied by several threads at once); lengths that no thread count
+        # divides, contents that are not zero up to the last byte
+        open(f"{d}/big.s", "w").write('.section .rodata.big,"a",@progbits\n.globl big\nbig:\n .fill 1000003, 1, 0x5a\n .byte 0x21\n'
+                                     '.section .data.big2,"aw",@progbits\n.globl big2\nbig2:\n .fill 2097169, 1, 0xa5\n .byte 0x42\n'
+                                     '.text\n.globl _start\n_start: lea big(%rip), %rax\n lea big2(%rip), %rcx\n ret\n')
+        sh(f"cd {d} && as --64 big.s -o big.o", timeout=120)
+        cases.append(("big-sections", ["big.o", "--build-id=fast"]))
         if chk.tier == "quick":
-            cases = [cases[0], cases[2], cases[3], cases[4], cases[5]]
+            cases = [cases[0], cases[2], cases[3], cases[4], cases[5], cases[6]]
         # generated assembly programs (the C04 generator), with mergeable strings added
         gens = []
         for gi in range(4 if chk.tier == "quick" else 30):
